@@ -15,7 +15,7 @@ P = {
          "Direct predicates (monotone times, start/end, status honesty, evaluation times inside the interval, dimensions, finiteness) on every run of a large randomised and adversarial option sweep.",
          "harness-owned IVP implementation records every ode/events/jac call; rounding slack R_t = 4 eps max(|x0|,|xend|)", "§4 C03"),
  "C04": ("child-process execution with logical evaluation budget, stall detection and CPU limit; exit-status oracle",
-         "Each hostile solve_ivp call runs in its own child process under a right-hand-side evaluation budget (>=1000x head-room) and a CPU limit; termination is decided as bounded work (no progress of the evaluated times between two windows of 1e6 calls), panics by exit status, and the returned prefix is validated.",
+         "Each hostile solve_ivp call (19 kinds of blow-up, domain exit, NaN/inf, discontinuity, chattering, overflow-sized right-hand sides, sub-ulp intervals) runs in its own child process under a right-hand-side evaluation budget (>=1000x head-room) and a CPU limit; termination is decided as bounded work (no progress of the evaluated times between two windows of 1e6 calls), panics by exit status, and the returned prefix is validated.",
          "termination restated as bounded work; wall-clock watchdog firing = inconclusive", "§4 C04"),
  "C05": ("pilot-run adversarial placement of requested times + exact sequence/bit-pattern comparison + dense twin comparison",
          "Requested times are placed on / next to / inside the accepted-step grid revealed by a pilot run; reported times must equal the request bit for bit, values must equal sol(t) of the dense twin bitwise and the exact solution within the C01/C07 bound; early-stop prefix rules checked against the twin without t_eval.",
@@ -45,7 +45,7 @@ P = {
          "Pairs of exactly equivalent problems must yield bitwise equivalent trajectories (explicit methods; implicit with user Jacobian); copies relation judged on first step, step counts and accuracy relative to the single system.",
          "symmetry relations hold bitwise on the repaired tree (measured), so exact equality is the oracle", "§4 C13"),
  "C14": ("reference-solution monitor on stiff families (Prothero-Robinson with exact solution, Robertson/Van der Pol vs committed reference table) + step-count-vs-stiffness monitor + invariant monitor",
-         "Radau/BDF on stiffness ratios 1e2..1e10: Success, error within tolerance scale, step count flat in the ratio, linear invariants preserved.",
+         "Radau/BDF on stiffness ratios 1e2..1e10 (linear and nonlinear Prothero-Robinson ladders with closed-form solutions, Robertson, Van der Pol, linear kinetics networks): Success, error within tolerance scale, step count bounded independently of the ratio (flat on the slow manifold), linear invariants preserved.",
          "reference table generated by two independent routes (SciPy Radau/LSODA, ivp's other implicit method)", "§4 C14"),
  "C15": ("differential monitors across mass/Jacobian sources and storages (bitwise where stated) + DAE residual monitor",
          "Mass-matrix form vs explicit form within tolerance; index-1 DAE constraints satisfied; default mass = identity for every storage; Identity/Full/Banded storages bit-identical; analytic vs finite-difference Jacobian within tolerance.",
